@@ -18,13 +18,17 @@ held set, hint = first missing index, every held block's bytes sit in the data s
 prefix-sum offset.  The flush cadence (every fourth operation / 64 KiB) is inside the model, so the
 theorem covers histories in which nodes move from memory to the store at arbitrary points.
 
-**`history_then_reopen`**: after any such history, `Hypercore::new` on the four stores yields a core that
-represents the same abstract log — replay of the logged entries over the flushed tree and bitfield stores
-(`reopen_refines`, `Persist`: bitfield pages decode to the bits in memory, `full_roots` = reference roots,
-`truncate` + commit rebuild the roots) — **provided** the oplog store opens to the header of the last flush
-and the entries logged since.  That proviso is the oplog byte layer, proved separately at protocol level
-(C02) and for the JavaScript layout (C06), not yet composed with this theorem; hence `refines_partial`
-keeps its name for the reopen components:
+**`history_then_reopen`** / **`reopen_then_continue`**: after any such history (within the size limits of
+the on-disk formats: fewer than 2^62 blocks, batches below 2^20 blocks, 32-byte key and seed, 64-byte
+signatures, 32-byte digests), `Hypercore::new` on the four stores yields a core that represents the same
+abstract log, and every further call behaves like the abstract log again.  The proof composes the oplog's
+commit protocol (`Rotation.Inv`) with its byte layout (`OplogBytes`: `Oplog::open` on the bytes = the
+reader's rule on the abstraction; appends and flushes keep the abstraction), the flushed stores (`Persist`:
+bitfield pages decode to the bits in memory, tree slots hold the reference nodes) and the replay
+(`Reopen`: `full_roots` = reference roots, `truncate` + commit rebuild the roots).
+
+So C01 is proved for the model in full: create, any calls, close, reopen, any calls.  What ties the model
+to the Rust is the correspondence run.  The components below are kept as they were stated earlier:
 
 * `entry_reopen`   : every log entry the crate can write (any combination of the four sections)
   decodes to itself, whatever follows it in the file;
@@ -32,9 +36,7 @@ keeps its name for the reopen components:
 * `frame_reopen`   : the checksummed leader yields payload and both bits back;
 * `held_after`     : range updates of the held set (append = set, clear = drop) are exact.
 
-`refines_partial` is **partial** in that sense: histories that contain close-and-reopen steps are
-validated by the correspondence run (implementation = Lean model = list-model oracle on every generated
-history), not yet proved.
+`refines_partial` keeps its historical name; it is subsumed by the theorems above.
 -/
 namespace HC.C01
 open HC HC.Oplog HC.Codec HC.LogSpec HC.LiveRefine HC.TreeStore
@@ -119,41 +121,56 @@ theorem reopen_refines (C : Crypto) (hC : HashWF C) (d : Disk) (ost : Oplog.Stat
     ∃ c', Core.openCore C none d = .ok (c', []) ∧ Rep C c' d a :=
   Reopen.reopen_refines C hC d ost hf es a0 a sk hlog hlen hsig hsec hN hbits hlt hcontig hsmall0 htrace hdata hsmall
 
+/-- every call is also within the size limits of the on-disk formats (see `Persist.Limits`) -/
+def AllLimits (a : Abs) : List Op → Prop
+  | [] => True
+  | op :: rest => Persist.Limits a op ∧ AllLimits (a.step op).1 rest
+
 /-- `Rep` and the ghost invariant `Persist` along a whole history -/
-theorem history_invariants (C : Crypto) (hC : HashWF C) (hS : SignWF C) (ops : List Op) :
+theorem history_invariants (C : Crypto) (hC : HashWF C) (hS : SignWF C) (hTw : Persist.TreeWF C) (ops : List Op) :
     ∀ (c : Core) (d : Disk) (a : Abs) (hf : Header) (a0 : Abs) (es : List Entry), Rep C c d a →
-      Persist.Persist C c d hf a0 es a → AllValid a ops →
+      Persist.Persist C c d hf a0 es a → AllValid a ops → AllLimits a ops →
       Rep C (runC C (c, d) ops).1.1 (runC C (c, d) ops).1.2 (runA a ops).1
         ∧ ∃ hf' a0' es', Persist.Persist C (runC C (c, d) ops).1.1 (runC C (c, d) ops).1.2 hf' a0' es' (runA a ops).1 := by
   induction ops with
-  | nil => intro c d a hf a0 es h hp _; exact ⟨h, hf, a0, es, hp⟩
+  | nil => intro c d a hf a0 es h hp _ _; exact ⟨h, hf, a0, es, hp⟩
   | cons op rest ih =>
-    intro c d a hf a0 es h hp hv
+    intro c d a hf a0 es h hp hv hl
     obtain ⟨_, h2⟩ := step_refines C hC c d a h op hv.1
-    obtain ⟨hf', a0', es', hp2⟩ := Persist.persist_step C hC hS c d hf a0 a es h hp op hv.1
-    exact ih _ _ _ hf' a0' es' h2 hp2 hv.2
+    obtain ⟨hf', a0', es', hp2⟩ := Persist.persist_step C hC hS hTw c d hf a0 a es h hp op hv.1 hl.1
+    exact ih _ _ _ hf' a0' es' h2 hp2 hv.2 hl.2
 
-/-- **C01 across close and reopen (up to the oplog byte layer).**  After any history of a freshly
-    created core there are a header `hf`, a log `a0` and entries `es` — the header written by the last
-    flush, the log at that flush and the entries logged since, tracked by `Persist` — such that: whenever
-    the oplog store opens to `(hf, es)`, `Hypercore::new` on the four stores yields a core that
-    represents the same abstract log, so that `live_refinement` applies to every further call.
-    That the oplog store does open to the last flushed header and the entries written since is what
-    `C02.reopen_exact` / `C02.reachable` prove for the commit protocol and `C06.read_write` /
-    `C06.entries_read_back` for the byte layout. -/
-theorem history_then_reopen (C : Crypto) (hC : HashWF C) (hS : SignWF C) (pk sk : Bytes) (ops : List Op)
-    (hv : AllValid {} ops) :
+/-- **C01 across close and reopen.**  After any history of a freshly created core (32-byte key and seed),
+    `Hypercore::new` on the four stores — `open(true)`, no key pair supplied — yields a core that
+    represents the same abstract log, so that `live_refinement` applies to every further call: every
+    block that was held reads back byte-identical, `has` and the contiguous length are unchanged,
+    length and byte length are unchanged.  The proof composes: the commit protocol of the oplog
+    (`Rotation.Inv`) with its byte layout (`OplogBytes.openLog_abs`: `Oplog::open` on the bytes = the
+    reader's rule on the abstraction), the flushed tree and bitfield stores (`Persist`), and the replay
+    of the logged entries (`Reopen.reopen_refines`). -/
+theorem history_then_reopen (C : Crypto) (hC : HashWF C) (hS : SignWF C) (hTw : Persist.TreeWF C) (pk sk : Bytes)
+    (hpk : pk.length = 32) (hsk : sk.length = 32) (ops : List Op) (hv : AllValid {} ops) (hl : AllLimits {} ops) :
     ∃ c j, Core.openCore C (some (pk, some sk)) {} = .ok (c, j) ∧
-      ∃ hf es, ∀ ost, Oplog.openLog none (runC C (c, ({} : Disk).applyAll j) ops).1.2.oplog.toList = .ok ⟨ost, hf, [], es⟩ →
-        ∃ c', Core.openCore C none (runC C (c, ({} : Disk).applyAll j) ops).1.2 = .ok (c', [])
-          ∧ Rep C c' (runC C (c, ({} : Disk).applyAll j) ops).1.2 (runA {} ops).1 := by
-  obtain ⟨c, j, h1, h2, h3⟩ := Persist.init_both C pk sk
-  obtain ⟨hrep, hf, a0, es, hp⟩ := history_invariants C hC hS ops c _ {} _ {} [] h2 h3 hv
-  refine ⟨c, j, h1, hf, es, fun ost hlog => ?_⟩
-  obtain ⟨sk', hsk⟩ : ∃ sk', hf.secret = some sk' := by
+      ∃ c', Core.openCore C none (runC C (c, ({} : Disk).applyAll j) ops).1.2 = .ok (c', [])
+        ∧ Rep C c' (runC C (c, ({} : Disk).applyAll j) ops).1.2 (runA {} ops).1 := by
+  obtain ⟨c, j, h1, h2, h3⟩ := Persist.init_both C pk sk hpk hsk
+  obtain ⟨hrep, hf, a0, es, hp⟩ := history_invariants C hC hS hTw ops c _ {} _ {} [] h2 h3 hv hl
+  refine ⟨c, j, h1, ?_⟩
+  obtain ⟨ost, hlog⟩ := OplogBytes.opinv_open _ _ hf es hp.oplog
+  obtain ⟨sk', hsk'⟩ : ∃ sk', hf.secret = some sk' := by
     rw [hp.hfSecret]; exact Option.isSome_iff_exists.mp hrep.writer
-  exact Reopen.reopen_refines C hC _ ost hf es a0 _ sk' hlog hp.hfLen hp.hfSig hsk hp.fileNodes hp.fileBits hp.held0Lt
+  exact Reopen.reopen_refines C hC _ ost hf es a0 _ sk' hlog hp.hfLen hp.hfSig hsk' hp.fileNodes hp.fileBits hp.held0Lt
     hp.hfContig hp.small0 hp.trace hrep.data hrep.small
+
+/-- histories with reopen steps in the middle: a reopened core continues like the abstract log -/
+theorem reopen_then_continue (C : Crypto) (hC : HashWF C) (hS : SignWF C) (hTw : Persist.TreeWF C) (pk sk : Bytes)
+    (hpk : pk.length = 32) (hsk : sk.length = 32) (ops more : List Op) (hv : AllValid {} ops) (hl : AllLimits {} ops)
+    (hv2 : AllValid (runA {} ops).1 more) :
+    ∃ c j, Core.openCore C (some (pk, some sk)) {} = .ok (c, j) ∧
+      ∃ c', Core.openCore C none (runC C (c, ({} : Disk).applyAll j) ops).1.2 = .ok (c', [])
+        ∧ (runC C (c', (runC C (c, ({} : Disk).applyAll j) ops).1.2) more).2 = (runA (runA {} ops).1 more).2 := by
+  obtain ⟨c, j, h1, c', h2, h3⟩ := history_then_reopen C hC hS hTw pk sk hpk hsk ops hv hl
+  exact ⟨c, j, h1, c', h2, (live_refinement C hC more c' _ _ h3 hv2).1⟩
 
 /-- non-vacuity of the hypothesis on the hash functions: a record with constant non-zero 32-byte digests -/
 example : HashWF { leaf := fun _ => List.replicate 32 1, parent := fun _ _ _ => List.replicate 32 2, tree := fun _ => [],
